@@ -119,10 +119,10 @@ func runC14(c *ev.Ctx) {
 		// PRNG scripts of 8-12 events: several flushes of A, chains, traffic, both releases
 		r := c.Rand("c14scripts")
 		for _, k := range kinds {
-			for i := 0; i < 150; i++ {
+			for i := 0; i < 1500; i++ {
 				idx++
 				mine := c.Mine(idx)
-				n := 8 + r.Intn(5)
+				n := 8 + r.Intn(9)
 				var sc []int
 				for j := 0; j < n; j++ {
 					sc = append(sc, []int{0, 0, 3, 4, 3, 0}[r.Intn(6)])
